@@ -52,15 +52,28 @@ def main(ctx):
         if len(ms) > 3000:
             ms = senderlib.sample(ms, 3000, ctx.seed)
         for mrg in ms:
-            variant = rnd.choice(["plain", "plain", "timeout"])
+            variant = rnd.choice(["plain", "plain", "timeout", "dupclose", "closefirst"])
             sched = list(mrg["ops"])
             rc = {"filtering": False}
+            streams = [[s, e] for s, e in zip(sids, eps)]
+            if variant == "dupclose":
+                # the close-session packet of every session arrives a second time after the session was closed
+                for si, s_ in enumerate(sids):
+                    sched += [["stream", si], ["p", lens[s_]]]
+            if variant == "closefirst":
+                # a close-session packet is the first and only packet ever seen for another (endpoint, TSI) key
+                other = next(e for e in (10, 11, 20, 21) if e not in eps)
+                streams = streams + [[sids[0], other]]
+                sched = [["stream", len(streams) - 1], ["p", lens[sids[0]]], ["stream", 0]] + sched
             if variant == "timeout":
                 # leave the sessions without their close-session packet, let them expire, clean up
                 sched = [op for op in sched if not (op[0] == "p" and op[1] == max(ls))]
                 rc = {"filtering": False, "sess_to": 0}
                 sched += [["sleep", 5], ["c"]]
-            inter.append({"fam": "inter" if variant == "plain" else "inter-timeout", "sid": sids[0], "streams": [[s, e] for s, e in zip(sids, eps)], "rcfg": rc, "sched": sched})
+            # (the end-of-behaviour conjunct "every stream delivers its objects once" is for fam = inter only: the extra key of
+            #  closefirst delivers nothing by construction)
+            fam = {"timeout": "inter-timeout", "closefirst": "inter-closefirst"}.get(variant, "inter")
+            inter.append({"fam": fam, "sid": sids[0], "streams": streams, "rcfg": rc, "sched": sched})
     recvlib.run_rx(ctx, specs, infos, behs, "filter", monitor="Mon_Multi", chunk_size=800)
     recvlib.run_rx(ctx, specs, infos, inter, "inter", monitor="Mon_Multi", chunk_size=800)
     for v in ctx.violations:
@@ -70,6 +83,6 @@ def main(ctx):
            "traces_validated_against_impl": ctx.traces, "events_judged_by_monitor": ctx.events,
            "listen_sequences_enumerated": total_f, "listen_sequences_replayed": len(behs), "interleavings_enumerated": total_i, "interleavings_replayed": len(inter),
            "exhaustive": len(behs) == total_f,
-           "explanation": "every sequence of <= d add/remove/add-all/remove-all/set-filtering operations over 2 groups x {source, no source} x 2 TSIs (26 operations, both initial filtering states) followed by one probe packet per (endpoint, TSI) key; every interleaving of 2 (thorough: 3) real sessions with distinct and equal TSIs on distinct endpoints, close-session packet at every relative position, or expiry + cleanup"}
+           "explanation": "every sequence of <= d add/remove/add-all/remove-all/set-filtering operations over 2 groups x {source, no source} x 2 TSIs (26 operations, both initial filtering states) followed by one probe packet per (endpoint, TSI) key; every interleaving of 2 (thorough: 3) real sessions with distinct and equal TSIs on distinct endpoints, close-session packet at every relative position, or expiry + cleanup, or every close-session packet duplicated after the close, or a close-session packet as the only packet of another key"}
     return finish(ctx, "model_checking", cov, ["a probe is 'processed' iff the listener sees the session open",
                                                  "the double evaluation of is_expired() in MultiReceiver::cleanup (sub-microsecond race, DESIGN D20) is not reachable by the harness"])
